@@ -120,6 +120,8 @@ def run(chk):
         chk.dist('case_bytes', '<1k' if len(a.get('W1', '')) < 2000 else '<64k' if len(a.get('W1', '')) < 128000 else
                  '<512k' if len(a.get('W1', '')) < 1024000 else '>=512k')
         bad = judge(case, a, b, m)
+        if 'WF' in m:
+            chk.dist('theorem_hypotheses', 'wf_ctx holds' if m['WF'] == '1' else 'outside wf_ctx')
         if any(s == 'gen:rejected' for s, _ in bad):
             rejected += 1
             chk.dist('outcome', 'rejected-by-api')
